@@ -250,6 +250,8 @@ class XPowGate(eigen_gate.EigenGate):
         )
 
     def _qasm_(self, args: cirq.QasmArgs, qubits: tuple[cirq.Qid, ...]) -> str | None:
+        if self._dimension != 2:
+            return NotImplemented  # QASM has no qudit gates.
         args.validate_version('2.0', '3.0')
         if self._global_shift == 0:
             if self._exponent == 1:
@@ -801,6 +803,8 @@ class ZPowGate(eigen_gate.EigenGate):
         return protocols.CircuitDiagramInfo(wire_symbols=('Z',), exponent=e)
 
     def _qasm_(self, args: cirq.QasmArgs, qubits: tuple[cirq.Qid, ...]) -> str | None:
+        if self._dimension != 2:
+            return NotImplemented  # QASM has no qudit gates.
         args.validate_version('2.0', '3.0')
 
         if self.global_shift == 0:
